@@ -37,7 +37,7 @@ def geom_cases(draw, tier="quick"):
     N = draw(st.sampled_from([1, 2, 3, 5]))
     P = draw(gen.mat(N, pd, -2, 2))          # N parameter vectors
     Fv = draw(gen.mat(N, int(np.prod(fs)), -2, 2))  # N raw function-value vectors
-    return {"geom": spec, "P": P, "F": Fv}
+    return {"geom": spec, "P": P, "F": Fv, "regrid": draw(st.sampled_from([0, 1, 3, 7])), "thin": [draw(st.integers(0, 2)), draw(st.integers(1, 3))]}
 
 
 def is_identity_map(spec):
@@ -88,6 +88,23 @@ def run_roundtrip(c, rec):
     Pg = np.asarray(G.par2fun(np.asarray(G.fun2par(g))))
     PPg = np.asarray(G.par2fun(np.asarray(G.fun2par(Pg))))
     require(close(PPg, Pg, 1e-9), "par2fun(fun2par(.)) is not idempotent", Pg=Pg, PPg=PPg)
+    # the same geometry object given another grid (public setter) must be the geometry of that grid
+    if spec["kind"] == "kl" and c.get("regrid"):   # (KL: the number of parameters does not depend on the grid)
+        spec2 = dict(spec, fun_dim=spec["fun_dim"] + int(c["regrid"]))
+        fresh = gen.make_geometry(spec2)
+        refused, _ = refuses(lambda: setattr(G, "grid", np.array(fresh.grid, dtype=float).copy()))
+        if refused:
+            rec.count("grid_assignment_refused")
+            return
+        rec.count("regridded")
+        f2 = np.asarray(must(lambda: G.par2fun(p), "par2fun after the grid was re-assigned"))
+        fw = np.asarray(fresh.par2fun(p))
+        require(f2.shape == fw.shape and close(f2, fw, 1e-12), "after assigning a new grid par2fun is not that of a geometry built on the new grid",
+                got=f2, want=fw)
+        require(tuple(G.fun_shape) == tuple(f2.shape), "fun_shape not updated with the grid")
+        pb = np.asarray(must(lambda: G.fun2par(f2), "fun2par after the grid was re-assigned"))
+        require(close(pb, p, 1e-9), "after assigning a new grid fun2par(par2fun(p)) != p", p=p, back=pb,
+                nodes_before=spec["fun_dim"], nodes_after=spec2["fun_dim"])
 
 
 def run_batch(c, rec):
@@ -131,7 +148,9 @@ def step_cases(draw, tier="quick"):
     n_steps = draw(st.integers(1, n))
     mode = draw(st.sampled_from(["rational", "float", "linspace"]))
     if mode == "rational":
-        x0 = [draw(st.integers(-30, 30)), draw(st.sampled_from([1, 2, 3, 5, 7, 10]))]
+        # offsets up to 1e6 times the spacing (time stamps, coordinates far from the origin)
+        x0 = [draw(st.one_of(st.integers(-30, 30), st.integers(-30, 30).map(lambda v: v * 10 ** 4), st.integers(10 ** 5, 10 ** 6))),
+              draw(st.sampled_from([1, 2, 3, 5, 7, 10]))]
         h = [draw(st.integers(1, 30)), draw(st.sampled_from([1, 2, 3, 5, 7, 10, 100]))]
         return {"mode": mode, "n": n, "n_steps": n_steps, "x0": x0, "h": h}
     if mode == "float":
@@ -178,6 +197,14 @@ def run_step(c, rec):
     # documented membership for nodes clear of the interval boundaries
     x0, L = grid[0], grid[-1] - grid[0]
     for j, x in enumerate(grid):
+        if c["mode"] == "rational":
+            # the grid is x0 + h*j with exact rationals: node j sits at j*k/(n-1) steps, exactly. A node exactly on an interval
+            # boundary belongs to the interval on its left (documented intervals (a_i, a_{i+1}]); no tolerance is needed
+            tq = Fraction(j * k, n - 1)
+            want = {max(0, int(tq) - 1)} if tq.denominator == 1 else {min(k - 1, int(tq))}
+            require(int(owner[j]) in want, "node assigned to a step other than the documented interval (x0 + i L/n_steps, x0 + (i+1) L/n_steps]",
+                    node=j, x=x, owner=int(owner[j]), want=sorted(want), position_in_steps=str(tq))
+            continue
         t = (x - x0) / L * k  # position in units of steps
         nearest = round(t)
         if abs(t - nearest) <= 1e-9 * k:
@@ -230,6 +257,25 @@ def run_conv(c, rec):
         for i in range(N):
             require(close(np.asarray(F2.samples[..., i]).reshape(fs), np.asarray(Fs.samples[..., i]).reshape(fs), 1e-12),
                     "funvals -> vector -> funvals is not lossless")
+    # conversions after the object was used: a thinned copy and a re-assigned sample array convert their own columns
+    Nb, Nt = c.get("thin", [0, 1])
+    if N - Nb >= 1 and (Nb, Nt) != (0, 1):
+        St = must(lambda: S.burnthin(Nb, Nt), "burnthin")
+        Ft = must(lambda: St.funvals, "funvals of a thinned copy")
+        cols = list(range(N))[Nb::Nt]
+        require(Ft.Ns == len(cols), "funvals of a thinned copy has the wrong number of samples", got=Ft.Ns, want=len(cols))
+        for q, i in enumerate(cols):
+            want = np.asarray(G.par2fun(P[:, i].copy()))
+            require(close(np.asarray(Ft.samples[..., q]), want, 1e-12),
+                    "funvals of a thinned copy (taken after funvals of the full chain) are not the function values of its own samples", column=q)
+    if N > 1:
+        S.samples = P[:, ::-1].copy()
+        Fr = must(lambda: S.funvals, "funvals after the sample array was re-assigned")
+        for i in range(N):
+            want = np.asarray(G.par2fun(P[:, N - 1 - i].copy()))
+            require(close(np.asarray(Fr.samples[..., i]), want, 1e-12),
+                    "funvals after assigning a new sample array are not the function values of the new samples", column=i)
+        S.samples = P.copy()
     if has_fun2par(spec):
         for src in ([Fs] if refused else [Fs, Vs]):
             Pb = must(lambda: src.parameters, "Samples.parameters")
